@@ -339,10 +339,16 @@ def slice_sources(work):
     # every other index operation must build its bounds and query the index in the same way (counted for the evidence)
     s["n_cal"] = len(re.findall(r"^\s*CAL_SEARCH_BOUND\(superInfo, low, high\);", eng, re.M))
     s["n_range"] = len(re.findall(r"view->range\(low, high\)|partitionRange\(indexPos, low, high,|\.contains\(low, high\)|->contains\(low, high\)", eng))
-    s["lb"] = (K.extract_braced(eqh, r"\n    iterator lower_bound\(const TupleType& entry, operation_hints&\) const \{", "EquivalenceRelation::lower_bound").strip()
-               + "\n    " + K.extract_braced(eqh, r"\n    iterator lower_bound\(const TupleType& entry\) const \{", "EquivalenceRelation::lower_bound/1").strip())
-    s["ub"] = (K.extract_braced(eqh, r"\n    iterator upper_bound\(const TupleType&, operation_hints&\) const \{", "EquivalenceRelation::upper_bound").strip()
-               + "\n    " + K.extract_braced(eqh, r"\n    iterator upper_bound\(const TupleType& entry\) const \{", "EquivalenceRelation::upper_bound/1").strip())
+    # every lower_bound / upper_bound overload of EquivalenceRelation is pasted (a repair that adds an overload, e.g. one taking both
+    # bounds, is then part of the slice as soon as Index.h calls it)
+    lbs, ubs = [], []
+    for mm in re.finditer(r"\n    iterator (lower_bound|upper_bound)\(([^)]*)\) const \{", eqh):
+        body = K.extract_braced(eqh[mm.start():], re.escape(mm.group(0)[:-1]) + r"\{", "EquivalenceRelation::%s(%s)" % (mm.group(1), mm.group(2))).strip()
+        (lbs if mm.group(1) == "lower_bound" else ubs).append(body)
+    if not any("const TupleType& entry, operation_hints&" in x.split("{")[0] for x in lbs) or not ubs:
+        raise EngineError("EquivalenceRelation::lower_bound(entry, hints) / upper_bound not found; slice template out of date")
+    s["lb"], s["ub"] = "\n    ".join(lbs), "\n    ".join(ubs)
+    s["n_lb_overloads"] = len(lbs)
     s["getboundaries"] = K.extract_braced(eqh, r"\n    template <unsigned levels>\n    range<iterator> getBoundaries\(const TupleType& entry, operation_hints&\) const \{",
                                           "EquivalenceRelation::getBoundaries").strip()
     # compiled wrapper (header in this version of souffle; EqrelRelation::generateTypeStruct only emits the include)
